@@ -43,6 +43,8 @@ type vdRes struct {
 	ASite string   `json:"asite"` // function that allocated the most, when the allocation bound is exceeded
 	Alloc int      `json:"alloc"` // KiB allocated during the call (TotalAlloc delta)
 	Got   []string `json:"got"`
+	// the decoder flagged its result as incomplete (partial trailing message / batch)
+	Partial bool `json:"partial"`
 }
 
 func vdIsHarnessFrame(f runtime.Frame) bool {
@@ -159,9 +161,13 @@ func vdGuard(fn func() ([]string, error)) (r vdRes, exit bool) {
 	if alloc > 1<<30 {
 		alloc = 1 << 30
 	}
-	r = vdRes{Alloc: int(alloc), Got: o.got, Site: "-", Cause: "-", ASite: "-"}
-	if r.Got == nil {
-		r.Got = []string{}
+	r = vdRes{Alloc: int(alloc), Site: "-", Cause: "-", ASite: "-", Got: []string{}}
+	for _, g := range o.got {
+		if g == vdPartialMark {
+			r.Partial = true
+		} else {
+			r.Got = append(r.Got, g)
+		}
 	}
 	switch {
 	case o.pan != nil:
@@ -252,6 +258,7 @@ type vdSubjInfo struct {
 	Comp    bool     `json:"comp"`
 	Wrapped bool     `json:"wrapped"`
 	HasCrc  bool     `json:"hascrc"`
+	Allow   int      `json:"allow"`
 	Valid   string   `json:"valid"` // res of the unmutated encoding (must be ok)
 	VErr    string   `json:"verr"`
 	Hex     string   `json:"hex"`
@@ -337,7 +344,7 @@ func TestVerifDecoderWorker(t *testing.T) {
 			vdGuard(func() ([]string, error) { return s.run(fin) })
 			r, _ := vdGuard(func() ([]string, error) { return s.run(fin) })
 			put("S", vdSubjInfo{Si: si, Name: s.name, Ver: int(s.ver), Len: len(fin), NCells: len(tp.cells), NPush: len(tp.pushes),
-				NCases: len(cases), Orig: r.Got, HasRecs: s.hasRecs, Comp: s.comp, Wrapped: s.wrap != nil, HasCrc: tp.hasCrc(), Valid: r.Res, VErr: r.Err,
+				NCases: len(cases), Orig: r.Got, HasRecs: s.hasRecs, Comp: s.comp, Wrapped: s.wrap != nil, HasCrc: tp.hasCrc(), Allow: s.allowKiB, Valid: r.Res, VErr: r.Err,
 				Hex: hex.EncodeToString(fin)})
 		}
 		for ci := start; ci < len(cases); ci++ {
@@ -358,7 +365,7 @@ func TestVerifDecoderWorker(t *testing.T) {
 			}
 			put("B", vdBegin{Si: si, Ci: ci, InLen: len(fin), Case: c, Hex: hx})
 			r, exit := vdGuard(func() ([]string, error) { return run(fin) })
-			if !exit && r.Alloc > vdAllocBoundKiB(len(fin), s.comp) {
+			if !exit && r.Alloc > vdAllocBoundKiB(len(fin), s.comp)+s.allowKiB {
 				for try := 0; try < 3 && (r.ASite == "-" || r.ASite == "?"); try++ {
 					r.ASite = vdAllocSite(func() ([]string, error) { return run(fin) })
 				}
@@ -386,7 +393,7 @@ func TestVerifDecoderWorker(t *testing.T) {
 // ---------------------------------------------------------------- parent side: worker supervision
 
 var (
-	vdFatalRe = regexp.MustCompile(`(?m)^(fatal error: .*|runtime: out of memory.*|runtime: goroutine stack exceeds.*)$`)
+	vdFatalRe = regexp.MustCompile(`(?m)^(fatal error: .*|runtime: out of memory.*|runtime: goroutine stack exceeds.*|panic: .*)$`)
 	vdFrameRe = regexp.MustCompile(`(?m)^(github\.com/Shopify/sarama\.[^\s]+)\(.*\)\n\t(\S+)`)
 )
 
@@ -544,7 +551,11 @@ func vdRunSubjects(dir string, w int, subj []int) (infos []vdSubjInfo, done []vd
 			if res == "oom" {
 				asite = site
 			}
-			done = append(done, vdDone{*open, vdRes{Res: res, Site: site, ASite: asite, Cause: cause, Err: msg, Alloc: 1 << 30, Got: []string{}}})
+			allocKiB := 0
+			if res == "oom" {
+				allocKiB = 1 << 30
+			}
+			done = append(done, vdDone{*open, vdRes{Res: res, Site: site, ASite: asite, Cause: cause, Err: msg, Alloc: allocKiB, Got: []string{}}})
 			pos, ci = posOf[open.Si], open.Ci+1
 			continue
 		}
@@ -665,10 +676,14 @@ func TestVerifDecoder(t *testing.T) {
 			// the checksum clause speaks about checksummed data: a bare Record (no CRC of its own) re-parsed
 			// consistently after a length change is a valid encoding of another record, not damage
 			dmg := in.HasRecs && in.HasCrc && !in.Wrapped && !c.Fix && c.Dmg
+			// consistent damage (one wrong length / trailing junk under correct checksums): the original records, an
+			// error, or a result the decoder itself flags as partial - nothing else
+			strict := in.HasRecs && (in.HasCrc || in.Wrapped) && c.Strict
 			ev := kv{"type": in.Name, "ver": in.Ver, "ci": d.B.Ci, "kind": c.Kind, "trig": c.Trig, "prim": c.Prim, "caller": c.Caller,
-				"fix": c.Fix, "pos": c.Pos, "runver": c.RunVer, "inlen": d.B.InLen, "comp": in.Comp, "dmg": dmg,
+				"fix": c.Fix, "pos": c.Pos, "runver": c.RunVer, "strict": strict, "partial": d.R.Partial, "allow": in.Allow, "inlen": d.B.InLen, "comp": in.Comp, "dmg": dmg,
 				"res": d.R.Res, "err": d.R.Err, "site": d.R.Site, "asite": d.R.ASite, "cause": d.R.Cause, "alloc": d.R.Alloc, "got": d.R.Got, "hex": d.B.Hex}
-			rec.Ev("dec", kv{"inlen": d.B.InLen, "comp": in.Comp, "dmg": dmg, "res": d.R.Res, "alloc": d.R.Alloc, "got": d.R.Got})
+			rec.Ev("dec", kv{"inlen": d.B.InLen, "comp": in.Comp, "dmg": dmg, "strict": strict, "partial": d.R.Partial, "allow": in.Allow,
+				"res": d.R.Res, "alloc": d.R.Alloc, "got": d.R.Got})
 			det.Ev("dec", ev)
 			nDec++
 			byRes[d.R.Res]++
@@ -942,7 +957,7 @@ func vdReadLinesFile(t testing.TB, p string) []string {
 }
 
 type vdProgOut struct {
-	progs []vdProg
+	progs  []vdProg
 	steps  map[int][]vdStepRes
 	spawn  int
 	nsteps int
